@@ -15,5 +15,5 @@ def run(ctx):
         "appends only the consumed module's fragment. With C01 the product differs only in that module's fragment."
     )
     records = collect_walk_effects(ctx)
-    read_set_rule(ctx, "C19.read-set", records)
+    ctx.guard(read_set_rule, ctx, "C19.read-set", records)
     run_kernels(ctx, ["K7", "K14", "K15", "K0", "K10"], "C19")
